@@ -39,6 +39,7 @@ var targets = []string{
 	"TokenCache.Set", "TokenCache.Get", "TokenCache.Delete",
 	"discoverProviderMetadata",
 	"MetadataCache.isCacheValid", "MetadataCache.Cleanup", "MetadataCache.GetMetadata",
+	"JWKCache.Cleanup", "JWKCache.GetJWKS",
 	"SessionData.expireAccessTokenChunks", "SessionData.expireRefreshTokenChunks",
 	"SessionData.SetAccessToken", "SessionData.GetAccessToken", "SessionData.SetRefreshToken", "SessionData.GetRefreshToken",
 	"SessionData.GetCSRF", "SessionData.SetCSRF", "SessionData.GetNonce", "SessionData.SetNonce", "SessionData.GetCodeVerifier", "SessionData.SetCodeVerifier",
@@ -48,10 +49,10 @@ var targets = []string{
 
 // functions whose effects are on the outside world and the clock (discovery): `time.Now()`, `time.Sleep` and the HTTP fetch are
 // operations of `Go.DOps` on a state `w` (the virtual clock and the provider's scripted answers live there)
-var clocked = map[string]bool{"discoverProviderMetadata": true, "MetadataCache.GetMetadata": true}
+var clocked = map[string]bool{"discoverProviderMetadata": true, "MetadataCache.GetMetadata": true, "JWKCache.GetJWKS": true}
 
 // methods of *MetadataCache that assign its fields: they take the struct and return the new one next to their result
-var recvMutMethods = map[string]bool{"MetadataCache.GetMetadata": true, "MetadataCache.Cleanup": true,
+var recvMutMethods = map[string]bool{"MetadataCache.GetMetadata": true, "MetadataCache.Cleanup": true, "JWKCache.GetJWKS": true, "JWKCache.Cleanup": true,
 	"SessionData.expireAccessTokenChunks": true, "SessionData.expireRefreshTokenChunks": true, "SessionData.SetAccessToken": true, "SessionData.SetRefreshToken": true,
 	"SessionData.SetCSRF": true, "SessionData.SetNonce": true, "SessionData.SetCodeVerifier": true, "SessionData.SetEmail": true, "SessionData.SetIncomingPath": true, "SessionData.SetAuthenticated": true}
 
@@ -80,6 +81,7 @@ var clockedExternals = map[string]struct {
 	args  []int
 }{
 	"fetchMetadata": {"fetchMetadata", []string{"metap", "error"}, []int{0}},
+	"fetchJWKS":     {"fetchJWKS", []string{"jwksp", "error"}, []int{1}}, // (the context and the client are passed along, never inspected)
 	"time.Sleep":    {"sleep", nil, []int{0}},
 }
 
@@ -196,6 +198,12 @@ func leanType(t string) string {
 		return "(Option Go.Meta)"
 	case "mcache":
 		return "Go.MetaCache"
+	case "jcache":
+		return "Go.JwkCache"
+	case "jwksp":
+		return "(Option Go.JWKSet)"
+	case "ctx":
+		return "Go.Ctx"
 	case "sdata":
 		return "Go.SessData"
 	case "gsessp":
@@ -281,6 +289,8 @@ func goType(e ast.Expr) string {
 				return "metap"
 			case "MetadataCache":
 				return "mcache"
+			case "JWKCache":
+				return "jcache"
 			case "Logger":
 				return "logger"
 			}
@@ -296,6 +306,8 @@ func goType(e ast.Expr) string {
 			return "dur"
 		case "http.ResponseWriter":
 			return "rwp"
+		case "context.Context":
+			return "ctx"
 		}
 	case *ast.MapType:
 		if src(t) == "map[int]*sessions.Session" {
@@ -567,7 +579,7 @@ func (c *ctx) binary(x *ast.BinaryExpr) (string, string) {
 			}
 			return "(!" + s + ")", "bool"
 		}
-		if t == "error" || t == "jwkp" || t == "elemp" || t == "metap" {
+		if t == "error" || t == "jwkp" || t == "elemp" || t == "metap" || t == "jwksp" {
 			if x.Op == token.NEQ {
 				return s + ".isSome", "bool"
 			}
@@ -678,6 +690,12 @@ func (c *ctx) selector(x *ast.SelectorExpr) (string, string) {
 		return r + ".metadata", "metap"
 	case "mcache.expiresAt":
 		return r + ".expiresAt", "time"
+	case "jcache.jwks":
+		return r + ".jwks", "jwksp"
+	case "jcache.expiresAt":
+		return r + ".expiresAt", "time"
+	case "jcache.CacheLifetime":
+		return r + ".CacheLifetime", "dur"
 	case "sdata.mainSession", "sdata.accessSession", "sdata.refreshSession":
 		return r + "." + x.Sel.Name, "gsessp"
 	case "sdata.accessTokenChunks", "sdata.refreshTokenChunks":
@@ -1215,7 +1233,7 @@ func leanName(key string) string { return strings.Replace(key, ".", "_", 1) }
 
 // methodOf finds the translated method `name` of the Go type behind a type tag
 func methodOf(tag, name string) *fn {
-	goT := map[string]string{"inst": "TraefikOidc", "jwt": "JWT", "cache": "Cache", "tcache": "TokenCache", "mcache": "MetadataCache", "sdata": "SessionData"}[tag]
+	goT := map[string]string{"inst": "TraefikOidc", "jwt": "JWT", "cache": "Cache", "tcache": "TokenCache", "mcache": "MetadataCache", "jcache": "JWKCache", "sdata": "SessionData"}[tag]
 	if goT == "" {
 		return nil
 	}
@@ -1264,6 +1282,8 @@ func zero(t string) string {
 		return "(none : Option Go.JWK)"
 	case "metap":
 		return "(none : Option Go.Meta)"
+	case "jwksp":
+		return "(none : Option Go.JWKSet)"
 	}
 	fail(nil, "zero value of a %s", t)
 	return ""
@@ -1342,13 +1362,17 @@ func (c *ctx) assign(s *ast.AssignStmt, k func() string) string {
 	}
 	if c.f.recvMut && len(s.Lhs) == 1 && len(s.Rhs) == 1 && s.Tok == token.ASSIGN {
 		if sel, ok := s.Lhs[0].(*ast.SelectorExpr); ok && src(sel.X) == c.recv {
-			if _, rt, _ := c.lookup(c.recv); rt == "mcache" && (sel.Sel.Name == "metadata" || sel.Sel.Name == "expiresAt") {
+			if _, rt, _ := c.lookup(c.recv); rt == "mcache" && (sel.Sel.Name == "metadata" || sel.Sel.Name == "expiresAt") ||
+				rt == "jcache" && (sel.Sel.Name == "jwks" || sel.Sel.Name == "expiresAt") {
 				v, vt := c.expr(s.Rhs[0])
 				if vt == "nil" {
-					if sel.Sel.Name != "metadata" {
+					if sel.Sel.Name != "metadata" && sel.Sel.Name != "jwks" {
 						fail(s, "nil assigned to %s", src(sel))
 					}
 					v = "(none : Option Go.Meta)"
+					if rt == "jcache" {
+						v = "(none : Option Go.JWKSet)"
+					}
 				}
 				hp := c.takePre()
 				return hp + fmt.Sprintf("let %s := { %s with %s := %s }\n%s", c.recv, c.recv, sel.Sel.Name, v, k())
@@ -1595,6 +1619,8 @@ func (c *ctx) ret(s *ast.ReturnStmt) string {
 				v = "([] : Go.Obj)"
 			} else if i < len(c.f.retTypes) && c.f.retTypes[i] == "metap" {
 				v = "(none : Option Go.Meta)"
+			} else if i < len(c.f.retTypes) && c.f.retTypes[i] == "jwksp" {
+				v = "(none : Option Go.JWKSet)"
 			} else {
 				fail(s, "nil returned as something that is not an error")
 			}
@@ -2161,6 +2187,9 @@ func main() {
 						f.retTypes = append(f.retTypes, goType(r.Type))
 					}
 				}
+			}
+			if f.key == "JWKCache.GetJWKS" && len(f.retTypes) == 2 && f.retTypes[0] == "jwks" {
+				f.retTypes[0] = "jwksp" // (a *JWKSet that is nil on failure)
 			}
 		}()
 	}
